@@ -14,6 +14,7 @@ import (
 type optRolesT struct {
 	optionsT   *types.Named
 	field      map[string]string // public constructor -> options field it stores into
+	flag       map[string]string // public constructor -> boolean field it sets to true alongside ("the option was given"), if any
 	getOpts    *ssa.Function
 	getDefault *ssa.Function
 }
@@ -24,7 +25,7 @@ func optRoles(prog *Program) *optRolesT {
 	if r, ok := optRolesCache[prog]; ok {
 		return r
 	}
-	r := &optRolesT{field: map[string]string{}}
+	r := &optRolesT{field: map[string]string{}, flag: map[string]string{}}
 	optionT, _ := prog.Bexpr.Types.Scope().Lookup("Option").(*types.TypeName)
 	if optionT != nil {
 		if sig, ok := optionT.Type().Underlying().(*types.Signature); ok && sig.Params().Len() == 1 {
@@ -51,16 +52,31 @@ func optRoles(prog *Program) *optRolesT {
 		switch {
 		case sig.Results().Len() == 1 && namedIs(sig.Results().At(0).Type(), modPath, "Option") && f.Exported():
 			fields := map[string]bool{}
+			flags := map[string]bool{}
 			for _, path := range optionEffect(prog, sf) {
 				for _, st := range path.stores {
-					if st.field != "" {
-						fields[st.field] = true
+					if st.field == "" {
+						continue
 					}
+					// a boolean field set to the constant true next to the value: the presence flag of an optional setting
+					if bv, isC := st.val.BoolConst(); isC && bv {
+						flags[st.field] = true
+						continue
+					}
+					fields[st.field] = true
 				}
+			}
+			if len(fields) == 0 && len(flags) == 1 {
+				fields, flags = flags, map[string]bool{} // an option that is just a switch
 			}
 			if len(fields) == 1 {
 				for k := range fields {
 					r.field[n] = k
+				}
+				if len(flags) == 1 {
+					for k := range flags {
+						r.flag[n] = k
+					}
 				}
 			}
 		case sig.Results().Len() == 1 && types.Identical(sig.Results().At(0).Type(), r.optionsT):
@@ -231,4 +247,26 @@ func ownParameter(st *pstate, v *Sym, depth int) bool {
 		return true
 	}
 	return false
+}
+
+// optFlag returns the presence flag the public constructor ctor sets ("" if the setting has none).
+func optFlag(prog *Program, ctor string) string { return optRoles(prog).flag[ctor] }
+
+// optionGiven: was the optional setting of constructor ctor configured in the options value opts, on this path? The
+// setting is optional either as a pointer (nil = not given) or as a value with a presence flag.
+func optionGiven(prog *Program, st *pstate, opts *Sym, ctor string) (given, known bool) {
+	if fl := optFlag(prog, ctor); fl != "" {
+		return evalBool(st, &Sym{K: sField, A: opts, Str: fl})
+	}
+	isNil, known := evalEq(st, &Sym{K: sField, A: opts, Str: optField(prog, ctor)}, nilSym())
+	return !isNil, known
+}
+
+// optionValueKey: the key of the configured value (the pointee for the pointer form, the field itself for the flag form).
+func optionValueKey(prog *Program, opts *Sym, ctor string) string {
+	f := &Sym{K: sField, A: opts, Str: optField(prog, ctor)}
+	if optFlag(prog, ctor) != "" {
+		return f.Key()
+	}
+	return (&Sym{K: sLoad, A: f}).Key()
 }
